@@ -61,6 +61,8 @@ impl Property for C14 {
             "second_resource_kind_used",
             "session_process_awaited_while_owning",
             "termination_reported_again_after_late_transfer",
+            "socket_resources_used",
+            "resource_created_by_operation_on_another",
             "ownership_returned_to_earlier_owner",
             "transfer_below_closure_top_level",
             "process_owning_two_resources_closed",
@@ -77,7 +79,7 @@ impl Property for C14 {
         let neps = 1 + rng.usize(4);
         let mut kinds = Vec::new();
         for k in 0..neps {
-            let kind = rng.below(20);
+            let kind = rng.below(22);
             h.u64(kind);
             kinds.push(kind);
             let aw = |rng: &mut Rng, awaits: &mut Vec<String>, name: String| {
@@ -86,6 +88,53 @@ impl Property for C14 {
                 }
             };
             match kind {
+                20 | 21 => {
+                    // loopback TCP: main listens, a client connects, the accepted connection - a resource
+                    // created by an operation on another resource, possibly by a completion that arrives
+                    // later - is handed to a handler (message or spawn argument), which echoes and finishes;
+                    // the listener is closed, left open, or given to an acceptor process
+                    let port = 8000 + k;
+                    let mode = rng.below(3);
+                    let lmode = rng.below(3);
+                    h.u64(mode * 4 + lmode);
+                    let handler_body = "d = [s, 8] __tcp_socket_read__, n = [s, d] __tcp_socket_write__, d __binary_length__";
+                    lines.push(format!("l{k} = [{port}, 16] __tcp_listen__"));
+                    lines.push(format!("cl{k} = @{{ s = [0x7f000001, {port}] __tcp_connect__, n = [s, 0x0a0b0c] __tcp_socket_write__, r = [s, 8] __tcp_socket_read__, r __binary_length__ }}"));
+                    if kind == 21 {
+                        // an acceptor process gets the listener and does the accepting itself
+                        lines.push(format!("ac{k} = l{k} @#\\TcpListener {{ =ls, s = ls __tcp_listener_accept__, {handler_body} }}"));
+                        aw(rng, &mut awaits, format!("ac{k}"));
+                    } else {
+                        match mode {
+                            0 => {
+                                lines.push(format!("hd{k} = @#{{ s = !#\\TcpSocket, {handler_body} }}"));
+                                lines.push(format!("a{k} = l{k} __tcp_listener_accept__"));
+                                lines.push(format!("a{k} hd{k}"));
+                            }
+                            1 => {
+                                lines.push(format!("a{k} = l{k} __tcp_listener_accept__"));
+                                lines.push(format!("hd{k} = a{k} @#\\TcpSocket {{ =s, {handler_body} }}"));
+                            }
+                            _ => {
+                                // main serves the connection itself
+                                lines.push(format!("a{k} = l{k} __tcp_listener_accept__"));
+                                lines.push(format!("d{k} = [a{k}, 8] __tcp_socket_read__"));
+                                lines.push(format!("n{k} = [a{k}, d{k}] __tcp_socket_write__"));
+                                if rng.chance(1, 2) {
+                                    lines.push(format!("x{k} = a{k} __tcp_socket_close__"));
+                                }
+                            }
+                        }
+                        if mode < 2 {
+                            aw(rng, &mut awaits, format!("hd{k}"));
+                        }
+                        match lmode {
+                            0 => lines.push(format!("y{k} = l{k} __tcp_listener_close__")),
+                            _ => {}
+                        }
+                    }
+                    aw(rng, &mut awaits, format!("cl{k}"));
+                }
                 19 => {
                     // a third kind of resource (a directory iterator, whose entries are composite effect
                     // results): kept and closed / left open by its opener, or handed to a reader
@@ -415,7 +464,7 @@ fn resources_in(v: &Value, depth: u8, out: &mut Vec<(usize, u8)>) {
 /// which is part of what is being checked).
 fn rid_of(e: &NativeEffect) -> Option<quiver_core::value::ResourceId> {
     match e {
-        NativeEffect::FileOpen { .. } | NativeEffect::DnsResolve { .. } | NativeEffect::ReadDirOpen { .. } | NativeEffect::Stat { .. } => None,
+        NativeEffect::FileOpen { .. } | NativeEffect::DnsResolve { .. } | NativeEffect::ReadDirOpen { .. } | NativeEffect::Stat { .. } | NativeEffect::TcpListen { .. } | NativeEffect::TcpConnect { .. } => None,
         NativeEffect::FileRead { resource_id, .. }
         | NativeEffect::FileWrite { resource_id, .. }
         | NativeEffect::FileFlush { resource_id }
@@ -423,7 +472,12 @@ fn rid_of(e: &NativeEffect) -> Option<quiver_core::value::ResourceId> {
         | NativeEffect::DnsNext { resource_id }
         | NativeEffect::DnsClose { resource_id }
         | NativeEffect::ReadDirNext { resource_id }
-        | NativeEffect::ReadDirClose { resource_id } => Some(*resource_id),
+        | NativeEffect::ReadDirClose { resource_id }
+        | NativeEffect::TcpListenerAccept { resource_id }
+        | NativeEffect::TcpListenerClose { resource_id }
+        | NativeEffect::TcpSocketRead { resource_id, .. }
+        | NativeEffect::TcpSocketWrite { resource_id, .. }
+        | NativeEffect::TcpSocketClose { resource_id } => Some(*resource_id),
         other => other.resource_id(),
     }
 }
@@ -435,7 +489,10 @@ fn op_matches(op: &BackendOp, e: &NativeEffect) -> bool {
         (BackendOp::Write { rid, .. }, NativeEffect::FileWrite { resource_id, .. }) => rid == resource_id,
         (BackendOp::Flush { rid }, NativeEffect::FileFlush { resource_id }) => rid == resource_id,
         (BackendOp::Close { rid }, NativeEffect::FileClose { resource_id }) => rid == resource_id,
-        (BackendOp::Open { .. }, NativeEffect::DnsResolve { .. } | NativeEffect::ReadDirOpen { .. }) => true,
+        (BackendOp::Open { .. }, NativeEffect::DnsResolve { .. } | NativeEffect::ReadDirOpen { .. } | NativeEffect::TcpListen { .. } | NativeEffect::TcpConnect { .. }) => true,
+        (BackendOp::Read { rid }, NativeEffect::TcpListenerAccept { resource_id } | NativeEffect::TcpSocketRead { resource_id, .. }) => rid == resource_id,
+        (BackendOp::Write { rid, .. }, NativeEffect::TcpSocketWrite { resource_id, .. }) => rid == resource_id,
+        (BackendOp::Close { rid }, NativeEffect::TcpListenerClose { resource_id } | NativeEffect::TcpSocketClose { resource_id }) => rid == resource_id,
         (BackendOp::Read { rid }, NativeEffect::ReadDirNext { resource_id }) => rid == resource_id,
         (BackendOp::Close { rid }, NativeEffect::ReadDirClose { resource_id }) => rid == resource_id,
         (BackendOp::Read { rid }, NativeEffect::DnsNext { resource_id }) => rid == resource_id,
@@ -549,6 +606,17 @@ impl Monitor for ResMonitor {
         let recs: Vec<BackendRec> = b.history[self.hist_pos..].to_vec();
         self.hist_pos = b.history.len();
         drop(b);
+        // a resource that comes into being with a completion (an accepted connection) belongs to the
+        // process the completion is for
+        for r in &recs {
+            if let BackendRec::Completed { pid, new_rid: Some(n), .. } = r
+                && !self.owner.contains_key(n)
+            {
+                self.owner.insert(*n, *pid);
+                self.open.insert(*n);
+                self.probe("resource_created_by_completion");
+            }
+        }
         let mut q: std::collections::VecDeque<&BackendRec> = recs.iter().filter(|r| !matches!(r, BackendRec::Completed { .. })).collect();
         let mut spawn_i = 0;
         for e in &evts {
@@ -592,6 +660,9 @@ impl Monitor for ResMonitor {
                     }
                 }
                 Event::EffectRequest { process_id, effect } => {
+                    if matches!(effect, NativeEffect::TcpListen { .. } | NativeEffect::TcpConnect { .. } | NativeEffect::TcpListenerAccept { .. } | NativeEffect::TcpSocketRead { .. } | NativeEffect::TcpSocketWrite { .. }) {
+                        self.probe("socket_resources_used");
+                    }
                     if matches!(effect, NativeEffect::DnsResolve { .. } | NativeEffect::DnsNext { .. } | NativeEffect::DnsClose { .. } | NativeEffect::ReadDirOpen { .. } | NativeEffect::ReadDirNext { .. } | NativeEffect::ReadDirClose { .. }) {
                         self.probe("second_resource_kind_used");
                     }
@@ -616,6 +687,12 @@ impl Monitor for ResMonitor {
                                 {
                                     self.open.remove(&r);
                                     self.probe("explicit_close");
+                                }
+                                // an operation on one resource that yields another (accept)
+                                if let BackendRec::Execute { new_rid: Some(n), .. } = rec {
+                                    self.owner.insert(*n, *process_id);
+                                    self.open.insert(*n);
+                                    self.probe("resource_created_by_operation_on_another");
                                 }
                             }
                         }
